@@ -618,6 +618,16 @@ func (s *Store) gcIndex(ctx context.Context) error {
 			}
 		}
 	}
+
+	// keep the entries of untagged manifests that are still reachable, so
+	// that the saved index describes the same graph as the one in memory
+	for ref, desc := range refMap {
+		if ref == desc.Digest.String() && !tagged.Contains(desc.Digest) && graph.Exists(desc) {
+			if err := tagResolver.Tag(ctx, deleteAnnotationRefName(desc), ref); err != nil {
+				return err
+			}
+		}
+	}
 	s.tagResolver = tagResolver
 	s.graph = graph
 	return nil
